@@ -1801,6 +1801,9 @@ impl SocketAddress for unix::net::SocketAddr {
             }
         }
 
+        // Pathname addresses are null-terminated, the null byte is included in
+        // the length returned by the kernel.
+        let path = path.split(|b| *b == 0).next().unwrap_or(path);
         unix::net::SocketAddr::from_pathname(Path::new(OsStr::from_bytes(path)))
             // Fallback to an unnamed address.
             // SAFETY: unnamed (zero length) address is valid.
